@@ -409,6 +409,11 @@ func (x *c03) dischargeBounds(f *ssa.Function, ins []ssa.Instruction, s residueS
 			if g := lenGuardGE(call, sarg, func(k ssa.Value) bool { kk, ok := flow.ConstInt(k); return ok && kk >= need }); g != "" {
 				return fmt.Sprintf("G5: binary.%s under the dominating guard %s", o.Name(), g), "", shape
 			}
+			if pp, ok := sarg.(*ssa.Parameter); ok {
+				if why := x.paramLenAtCallers(f, pp, need, 0); why != "" {
+					return why, "", shape
+				}
+			}
 			return "", fmt.Sprintf("binary.%s reads %d bytes of a slice without a dominating length guard", o.Name(), need), shape
 		}
 	}
